@@ -119,7 +119,8 @@ class Tmpl:
         return "".join(self.parts)
 
     def min_len(self):
-        return sum(len(p) for p in self.parts if isinstance(p, str))
+        # an identifier token is never empty
+        return sum(len(p) if isinstance(p, str) else (1 if p.sym.kind == "ident" and p.render == "str" else 0) for p in self.parts)
 
     def holes(self):
         return [p for p in self.parts if isinstance(p, Hole)]
@@ -969,7 +970,10 @@ class Interp:
                 return b
             if (num(a) or _isnum(a)) and (num(b) or _isnum(b)):
                 k = "int" if all((isinstance(x, Sym) and x.kind == "int") or isinstance(x, int) for x in (a, b)) else "float"
-                return Sym(k, f"({_describe(a)}+{_describe(b)})", coerced=(("arith", "sum", "arithmetic on literal values", site),))
+                ua = a.uid if isinstance(a, Sym) else int(a) % 991
+                ub = b.uid if isinstance(b, Sym) else int(b) % 991
+                return Sym(k, f"({_describe(a)}+{_describe(b)})", coerced=(("arith", "sum", "arithmetic on literal values", site),),
+                           uid=500000 + (ua * 997 + ub) % 400000)
         if isinstance(op, ast.Sub) and _isnum(a) and _isnum(b):
             return a - b
         if isinstance(op, ast.Mult):
@@ -1059,7 +1063,7 @@ class Interp:
             m, o = (a, b) if isinstance(a, MinLen) else (b, a)
             if isinstance(o, int) and o < m.n:
                 return False
-            raise NeedChoiceOrUnsupported(self, f"length comparison at {site}")
+            return self.choose(f"len(...) == {o!r} at {site}")
         if isinstance(a, Sym) and isinstance(b, Sym):
             if a.kind == "ident" and b.kind == "ident":
                 return a.name == b.name
